@@ -232,6 +232,7 @@ def obligations(tier):
                     continue
                 yield Obligation('C15.jigg[n=%d,lexicon=%d,%s=%d,nbest=%d]' % (n, min(nlex, 8), which, alen, nbest), 'h_jigg',
                                  dict(n=n, nlex=min(nlex, 8), which=which, alen=alen, nbest=nbest), cost=n * n * 6)
+    yield Obligation('C15.xml[n=2,lexicon of the listed special rules]', 'h_xml', dict(n=2, nlex='special', which=None, alen=0), cost=10)
     for n in ((1, 2, 3) if q else (1, 2, 3, 4)):
         yield Obligation('C15.normalize[len=%d]' % n, 'h_normalize', dict(n=n), cost=n * 3)
 
